@@ -63,6 +63,7 @@ func (c12) Gen(rt *rapid.T, thorough bool) any {
 		s.Knobs.Starve = []string{"go@plugin_logger"}
 	}
 	s.Handles = rapid.IntRange(0, 2).Draw(rt, "handles")
+	s.Cycle = rapid.IntRange(0, 3).Draw(rt, "cycle") == 0
 	s.BadHandle = rapid.IntRange(0, 9).Draw(rt, "bad_handle") == 0
 	return s
 }
@@ -160,6 +161,26 @@ func runC12Refresh(x *Exec, s *AsyncScn) {
 	if err != nil {
 		o.violate("refresh-error", "C12/refresh-error/"+s.Kind, "Refresh rejected a valid configuration: %v\n%v", err, cfg)
 		return
+	}
+	if s.Cycle {
+		// the handle of the first life must stay THE handle of that name across a Destroy / Refresh cycle
+		if !x.do("destroy-1", func() { pv, st = call(log.Destroy) }) || pv != nil {
+			o.violate("destroy-failed", "C12/destroy-failed", "Destroy blocked or panicked: %v %v", pv, x.clientsStuck())
+			return
+		}
+		var h2 *log.LoggerWrapper
+		if pv, _ := call(func() { h2 = log.GetLogger("alog") }); pv != nil {
+			o.violate("gethandle-refused", "C12/handle-refused-after-destroy", "GetLogger after Destroy panicked: %v", pv)
+			return
+		}
+		if h2 != h {
+			o.violate("handle-identity", "C12/handle-not-same-after-destroy", "GetLogger(%q) after Destroy returned a different handle than before", "alog")
+		}
+		if !x.do("refresh-2", func() { pv, st = call(func() { err = log.Refresh(cfg) }) }) || pv != nil || err != nil {
+			o.violate("second-life-refresh", "C12/refresh-after-destroy-failed", "Refresh after Destroy failed: %v %v", pv, err)
+			return
+		}
+		x.Sim.Probe("handle_survived_cycle")
 	}
 	sys.stop = log.Destroy
 	runC12Writers(x, s, sys, h.Write)
